@@ -1,11 +1,104 @@
-// Package c16: correspondence ops for C16 (stub, not yet built).
 package c16
 
 import (
+	"encoding/json"
+
 	"verifharness/internal/core"
 	"verifharness/internal/registry"
 )
 
 func init() { registry.Register("C16", Ops) }
 
-func Ops() []*core.Op { return nil }
+func nq(quick, thorough int) func(core.Tier) int {
+	return func(t core.Tier) int {
+		if t == core.Thorough {
+			return thorough
+		}
+		return quick
+	}
+}
+
+func shrinkNone(json.RawMessage) []any { return nil }
+
+func Ops() []*core.Op {
+	return []*core.Op{
+		{
+			Name: "c16.expiration",
+			Doc:  "nodeclaim/expiration Controller.Reconcile on the fake client: one NodeClaim x expireAfter x fake clock around creation+expireAfter x Delete outcome; observes Delete calls, RequeueAfter, error",
+			N:    nq(3000, 40000),
+			Gen:  genExp,
+			Enum: enumExp,
+			Impl: implExp,
+			Rule: "non-trivial = managed, not deleting NodeClaim with expiry enabled (the threshold comparison is reached)",
+			Nontrivial: func(raw json.RawMessage, _ any) bool {
+				var in ExpIn
+				json.Unmarshal(raw, &in)
+				return in.Managed && !in.Deleting && in.ExpireAfter != nil
+			},
+			Labels:         expLabels,
+			Signature:      func(json.RawMessage, any) string { return "expiration" },
+			ExhaustiveNote: "managed x deleting x {Never,0,1h} x clock at edge {-1s,-1ns,0,+1ns,+1s} x Delete outcome {ok,notfound,err}",
+		},
+		{
+			Name:       "c16.gc",
+			Doc:        "nodeclaim/garbagecollection Controller.Reconcile on the fake client: random clusters of NodeClaims / provider instances / Nodes with NodeClaim-list, provider-list and Delete failures (no Node-lookup failures); observes the set of NodeClaims Delete was called for",
+			N:          nq(3000, 40000),
+			Gen:        genGC,
+			Impl:       implGC,
+			Rule:       "non-trivial = at least one NodeClaim passes the registered / not-deleting / not-listed-by-provider filter (its Node is looked up)",
+			Nontrivial: gcNontrivial,
+			Labels:     gcLabels,
+			Signature:  gcSignature,
+			Shrink:     gcShrink,
+		},
+		{
+			Name:           "c16.gc_lookup",
+			Doc:            "garbagecollection Controller.Reconcile with the Node lookup failed (client interceptor) and with duplicate Nodes: exhaustive single-claim matrix + random clusters",
+			N:              nq(1500, 15000),
+			Gen:            genGCLookup,
+			Enum:           enumGCLookup,
+			Impl:           implGC,
+			Rule:           "non-trivial = at least one NodeClaim passes the controller's filter",
+			Nontrivial:     gcNontrivial,
+			Labels:         gcLabels,
+			Signature:      gcSignature,
+			Shrink:         gcShrink,
+			ExhaustiveNote: "one NodeClaim: Registered {True,False,Unknown,absent} x provider {absent,listed,terminating} x Nodes {none, one (4 Ready states), two (4 mixes)} x Node lookup {ok,failed} x deleting (failed lookups: 3 Node representatives)",
+		},
+		{
+			Name: "c16.liveness",
+			Doc:  "nodeclaim/lifecycle Controller.Reconcile (launch, registration, initialization, Liveness) on the fake client: Launched/Registered states x fake clock around LaunchTimeout / registrationTimeout x NodePool Get / status patch / Delete outcomes per call; observes Delete calls and error",
+			N:    nq(2500, 30000),
+			Gen:  genLive,
+			Enum: enumLive,
+			Impl: implLive,
+			Rule: "non-trivial = managed, not deleting, Registered not True (the liveness timeouts are evaluated)",
+			Nontrivial: func(raw json.RawMessage, _ any) bool {
+				var in LiveIn
+				json.Unmarshal(raw, &in)
+				return in.Managed && !in.Deleting && in.Registered != "True"
+			},
+			Labels:         liveLabels,
+			Signature:      func(json.RawMessage, any) string { return "liveness" },
+			ExhaustiveNote: "Launched x Registered (4x4) x clock at each timeout edge {-1ns,0,+1ns} x every single fault position (Get/patch/Delete, 1st or 2nd call, each class) x registration-health window {empty,[fail]}",
+		},
+		{
+			Name: "c16.repair",
+			Doc:  "node/health Controller.Reconcile on the fake client: repair policies x Node conditions x fake clock around the toleration x pool / cluster population around the 20% breaker x NodeClaim-list / Node-list / annotate / Delete failures; observes Delete calls, RequeueAfter, error",
+			N:    nq(3000, 40000),
+			Gen:  genRepair,
+			Enum: enumRepair,
+			Impl: implRepair,
+			Rule: "non-trivial = exactly one NodeClaim for the Node and the Node matches a repair policy (toleration and breaker are evaluated)",
+			Nontrivial: func(raw json.RawMessage, _ any) bool {
+				var in RepairIn
+				json.Unmarshal(raw, &in)
+				_, ok := minTermination(in.Policies, in.Node.Conds)
+				return ok && in.Claims == "one" && !in.ClaimListFault
+			},
+			Labels:         repairLabels,
+			Signature:      func(json.RawMessage, any) string { return "repair" },
+			ExhaustiveNote: "pooled and standalone: population 1..11 x unhealthy 1..4 x clock at toleration edge {-1ns,0,+1ns}; every single fault at populations 5/1 and 6/2",
+		},
+	}
+}
